@@ -52,10 +52,14 @@ LdEvent(e) ==
             \E r \in {LdBytes(e.req.a, e.req.carry = 1, e.req.ix, e.req.de, tape[cursor], mem, writable)} :
             \E wantMem \in {[k \in 1..Len(e.before) |-> LdMemAfter(r, e.req.ix, tape[cursor], mem, writable, W16(e.base + k - 1))]} :
             LET blk == tape[cursor]
-                ok == e.done /\ (e.carry = 1) = r.carry /\ e.ix = r.ix /\ e.de = r.de /\ e.after = wantMem
+                \* a request served from a playing tape has at least sat through the block's pilot tone ("EAR carries every
+                \* block ... as the standard waveform": nothing reaches the loader faster than the tape delivers it)
+                pilotT == (IF blk[1] = 0 THEN RealK.hdrPulses ELSE RealK.dataPulses) * RealK.pilot
+                inTime == ~e.playing \/ (e.frames + 1) * (IF e.m = 128 THEN 70908 ELSE 69888) >= pilotT
+                ok == e.done /\ (e.carry = 1) = r.carry /\ e.ix = r.ix /\ e.de = r.de /\ e.after = wantMem /\ inTime
             IN /\ IF ok THEN bad' = bad
                   ELSE Report("ldbytes", [req |-> e.req, blkidx |-> cursor, blklen |-> Len(blk), done |-> e.done,
-                                          got |-> [carry |-> e.carry, ix |-> e.ix, de |-> e.de],
+                                          got |-> [carry |-> e.carry, ix |-> e.ix, de |-> e.de], frames |-> e.frames, inTime |-> inTime,
                                           want |-> [carry |-> r.carry, ix |-> r.ix, de |-> r.de],
                                           memdiff |-> {k \in 1..Len(e.before) : e.after[k] # wantMem[k]}])
                /\ cursor' = cursor + 1
